@@ -83,7 +83,7 @@ def absorb_units(tabs, dim, r):
     for o in r.emits:
         d = u.setdefault(o["cls"], {})
         prim = np.array(o["prim"], dtype=float)
-        d[(o["k"], tuple(o["w"]))] = dict(prim=prim, der=_der_array(o["cls"], o["der"]), lox=bool(o["lox"]))
+        d[(o["k"], tuple(o["w"]))] = dict(prim=prim, der=_der_array(o["cls"], o["der"]), lox=bool(o["lox"]), chart0=bool(o["chart0"]))
         tabs.whole[o["cls"]] = bool(o["whole"])
         tabs.maxabs = max(tabs.maxabs, float(np.abs(prim).max()))
     tabs.units[dim] = u
